@@ -158,6 +158,12 @@ fn gen_headers(rng: &mut Rng) -> Vec<(String, Vec<u8>)> {
     if rng.chance(1, 3) {
         v.push(("grpc-timeout".into(), b"5S".to_vec()));
     }
+    // connection-level names: never sent by an HTTP/2 peer, but an interceptor sits in a tower
+    // stack where any `http::Request` can arrive (proxies, HTTP/1.1 grpc-web front ends)
+    if rng.chance(1, 8) {
+        let k = *rng.pick(&["connection", "keep-alive", "proxy-connection", "transfer-encoding", "upgrade", "host", "content-length", "trailer"]);
+        v.push((k.into(), gen_ascii_value(rng, false).into_bytes()));
+    }
     v
 }
 
